@@ -25,6 +25,10 @@ RULE = ('(a) codec: states built so that the compressed length takes every '
         'Non-trivial: the history collapses a node with an expanded '
         'descendant, or the encoded state exceeds 76 characters.  Histories '
         'are distinct by construction (enumerated without merging).')
+RULE += (
+         'Also: transient branch wrappers, shared subtree objects, ids '
+         'with lone surrogates / controls; a rendering that raises, '
+         'exceeds 30 CPU-seconds or memory is a violation. ')
 ASSUMPTIONS = [
     'sibling ids are unique (the state identifies nodes by id path)',
     'the model is the set of expanded id paths; rows are compared in '
